@@ -85,7 +85,7 @@ def run(tier):
     common.write_ndjson(req, [{k: s[k] for k in s if k in ("id", "db", "query", "next_k", "action", "gomaxprocs", "yield_first", "fail_at", "fail_mode", "prepared")} for s in scen])
     rc, txt, _ = common.run([h, "driver", req, out], timeout=3000)
     if rc != 0:
-        raise Infra("harness driver failed: " + txt[-1500:])
+        raise common.harness_failure(txt, "harness driver")
     res = {r_["id"]: r_ for r_ in common.read_ndjson(out)}
     schedules, metas, pairs = [], {}, []
     truncated_seen = {"native_err": 0, "native_ok": 0}
@@ -202,6 +202,64 @@ def run(tier):
     v.sample({"scenario": metas[schedules[-1][0]], "events": [e["ev"] for e in schedules[-1][1]]})
     v.assumptions += ["goroutine leaks are judged after a settle period of up to 200 ms", "schedules are driven by GOMAXPROCS and short yields, not by gates: the interleavings actually reached are sampled"]
     return v.finish()
+
+
+def driver_faults(v, prop, h, hrace, d, rnd, tier):
+    """The fault part alone, for C12: a read fault (I/O error / short read) at each of the first page reads of a statement
+    run through database/sql must surface through Next or Close -- judged by TLC on Driver.tla (NoSilentShort,
+    FailureSurfaces), also in a race-detector build (the hand-off of the error to the consumer must be ordered)."""
+    db = os.path.join(d, "drvfault.db")
+    gen.tree_db(db, 1024, random.Random(rnd.randrange(1 << 30)), n=40, extreme=False)
+    con = sqlite3.connect(db)
+    n = con.execute("SELECT count(*) FROM r").fetchone()[0]
+    con.close()
+    scen = []
+    for j in range(1, 22 if tier == "quick" else 60):
+        for mode in ("err", "short"):
+            scen.append({"id": len(scen), "db": db, "query": "SELECT id, a, b FROM r", "next_k": -1, "action": "drain", "gomaxprocs": rnd.choice([1, 4]),
+                         "yield_first": bool(j % 2), "fail_at": j, "fail_mode": mode})
+    req, out = os.path.join(d, "df-req.ndjson"), os.path.join(d, "df-res.ndjson")
+    common.write_ndjson(req, scen)
+    rc, txt, _ = common.run([h, "driver", req, out], timeout=1800)
+    if rc != 0:
+        raise common.harness_failure(txt, "harness driver")
+    res = {r_["id"]: r_ for r_ in common.read_ndjson(out)}
+    schedules = []
+    fired = 0
+    for s in scen:
+        rs = res[s["id"]]
+        if rs.get("panic"):
+            v.report("%s:driver:panic" % prop, "database/sql scenario %s panicked: %s" % (json.dumps(s), rs["panic"]),
+                     lambda s=s, rs=rs: common.write_replay(prop, "driver-panic-%d.json" % s["id"], {"scenario": s, "result": rs}))
+            continue
+        if rs.get("query_err") or not rs.get("fired"):
+            continue
+        fired += 1
+        evs = [{"ev": "reset", "n": n, "fault": True}] + [{"ev": e} for e in rs["events"]]
+        evs.append({"ev": "settled", "locked": bool(rs["locked"]), "leak": bool(rs["leak"]), "late": bool(rs["late"])})
+        schedules.append(("s%d" % s["id"], evs))
+    if not fired:
+        raise Infra("no fault fired in the database/sql fault scenarios")
+    results = lockrun.validate(v, schedules, "", prop.lower() + "-drv", module="TraceDriver", cfg="TraceDriver.cfg", fname="driver.ndjson", reset=True)
+    for name, rr in results.items():
+        if not rr["accepted"]:
+            s, rs = scen[int(name[1:])], res[int(name[1:])]
+            v.report("%s:driver:fault-not-reported:%s" % (prop, s["fail_mode"]),
+                     "through database/sql, a %s at page read %d: observations %s (next_err=%r close_err=%r) are not a behaviour of Driver.tla: "
+                     "the failure did not surface" % ("short read" if s["fail_mode"] == "short" else "read error", s["fail_at"], rs["events"][-5:], rs.get("next_err"), rs.get("close_err")),
+                     lambda s=s, rs=rs: common.write_replay(prop, "driver-fault-%d.json" % s["id"], {"scenario": s, "result": {k: rs[k] for k in rs if k != "rows"}}))
+    rreq, rout = os.path.join(d, "dfr-req.ndjson"), os.path.join(d, "dfr-res.ndjson")
+    common.write_ndjson(rreq, scen[: (30 if tier == "quick" else 120)])
+    import subprocess
+    p = subprocess.run([hrace, "driver", rreq, rout], stdout=subprocess.PIPE, stderr=subprocess.PIPE, timeout=1800, env=dict(os.environ, GORACE="halt_on_error=0 exitcode=66"))
+    rerr = p.stderr.decode("utf-8", "replace")
+    if p.returncode not in (0, 66):
+        raise common.harness_failure(rerr, "race-detector run of the driver fault scenarios (rc=%d)" % p.returncode)
+    nraces = rerr.count("WARNING: DATA RACE")
+    if nraces:
+        v.report("%s:driver:data-race" % prop, "%d data race reports in the driver's hand-off of a read failure to the consumer" % nraces,
+                 lambda: common.write_replay(prop, "driver-race.json", {"reports": nraces, "first": rerr[rerr.find("WARNING: DATA RACE"):][:3000]}))
+    v.cov["driver_fault_scenarios"] = {"run": len(scen), "fired": fired, "validated": len(schedules), "race_build_reports": nraces}
 
 
 def replay(path):
